@@ -45,14 +45,12 @@ impl Harness {
         inner
             .chan_slots
             .insert(Some(CH), |id| {
-                let slot = ChannelSlot {
-                    rx: mio_rx,
-                    tx,
-                    collector: ContentCollector::new(id),
-                    consumers: std::collections::HashMap::new(),
-                    return_handler: None,
-                    pub_confirm_handler: None,
-                };
+                // built by the crate's own constructor (fields added to ChannelSlot do not break this harness); only the reply queue is replaced so
+                // that the harness can drain it
+                let (mut slot, handle) = ChannelSlot::new(16, id);
+                slot.tx = tx;
+                slot.rx = mio_rx;
+                drop(handle);
                 Ok((slot, ()))
             })
             .unwrap();
